@@ -115,6 +115,7 @@ def _sfs_bnl_core(data, sorted_idx, offsets, n_total_groups, result_mask):
     max_blocks = (max_n >> 4) + 1
     block_mins = np.empty((max_blocks, d), dtype=data.dtype)
     window_min = np.empty(d, dtype=data.dtype)
+    window_src = np.empty(max_n, dtype=numba.int64)
 
     for g in range(n_total_groups):
         start = offsets[g]
@@ -182,7 +183,7 @@ def _sfs_bnl_core(data, sorted_idx, offsets, n_total_groups, result_mask):
         if dv == 2:
             # 2D: sort by col0, group-aware sweep
             order = np.argsort(local[:n, 0], kind="mergesort")
-            best_c1 = numba.float64(1e308)
+            best_c1 = numba.float64(np.inf)
             i_start = numba.int64(0)
             while i_start < n:
                 c0_val = local[order[i_start], 0]
@@ -193,7 +194,7 @@ def _sfs_bnl_core(data, sorted_idx, offsets, n_total_groups, result_mask):
                     if v < g_min_c1:
                         g_min_c1 = v
                     i_end += 1
-                if g_min_c1 < best_c1:
+                if g_min_c1 < best_c1 or i_start == 0:
                     for k in range(i_start, i_end):
                         if local[order[k], 1] == g_min_c1:
                             result_mask[group_idx[order[k]]] = True
@@ -222,6 +223,7 @@ def _sfs_bnl_core(data, sorted_idx, offsets, n_total_groups, result_mask):
             window_min[kk] = v
             block_mins[0, kk] = v
         result_mask[group_idx[idx0]] = True
+        window_src[0] = idx0
         w_size = numba.int64(1)
 
         for ii in range(1, n):
@@ -267,6 +269,25 @@ def _sfs_bnl_core(data, sorted_idx, offsets, n_total_groups, result_mask):
                         break
 
             if not dominated:
+                # The sort key (a float sum) can tie for a row and a row it dominates
+                # (rounding, inf). Such rows sit at the tail of the window; evict them.
+                w = w_size - 1
+                while w >= 0 and not (sums_buf[window_src[w]] < sums_buf[i]):
+                    if result_mask[group_idx[window_src[w]]]:
+                        all_leq = True
+                        any_less = False
+                        for kk in range(dv):
+                            wk = window[w, kk]
+                            ck = local[i, kk]
+                            if ck > wk:
+                                all_leq = False
+                                break
+                            if ck < wk:
+                                any_less = True
+                        if all_leq and any_less:
+                            result_mask[group_idx[window_src[w]]] = False
+                    w -= 1
+                window_src[w_size] = i
                 for kk in range(dv):
                     v = local[i, kk]
                     window[w_size, kk] = v
@@ -453,7 +474,7 @@ def fast_pareto_mask(df_values, goals, distinct=True):
             eff_data = eff_data.copy()
         for j, (_, sign) in enumerate(effective_cols):
             if sign != 1.0:
-                np.negative(eff_data[:, j], out=eff_data[:, j])
+                eff_data[:, j] = -eff_data[:, j]
     else:
         eff_data = np.empty((n, n_eff), dtype=eff_dtype)
         j = 0
